@@ -108,6 +108,9 @@ func runC17(c *report.Ctx) {
 	// the handler token used above is only sound while the hand-shake has its rendezvous shape
 	ruleSuspendResume(c)
 
+	// the live per-coin flags are what rejects a coin whose spender is mined while the query iterates (the store has no snapshot)
+	ruleEligibility(c, false)
+
 	// ---- (2) snapshot reads -----------------------------------------------------------------------------
 	c.Rule("snapshot-reads", "a read transaction reads through a LevelDB snapshot, so a query sees one committed state", 1)
 	beginRead := fn(c, pkgLDB, "LevelDB", "BeginReadTx")
